@@ -78,7 +78,7 @@ def run_raw(peer, kind, base, maxrep, replies, env=None):
     return out
 
 
-def run_sync(peer, kind, base, maxrep, replies, env=None, use_fetch=False, allow_bulk=True):
+def run_sync(peer, kind, base, maxrep, replies, env=None, use_fetch=False, allow_bulk=True, abandon_after=None):
     """the sync iterator classes (GetNextIter / GetBulkIter / SnmpSession.fetch) over a socket shim"""
     env = env or e2e.env()
     conv = e2e.Conv(peer, env)
@@ -112,6 +112,9 @@ def run_sync(peer, kind, base, maxrep, replies, env=None, use_fetch=False, allow
         return out
     itr = r[1]
     while len(out.yields) <= CAP:
+        if abandon_after is not None and len(out.yields) >= abandon_after:
+            out.ending = "abandoned"      # the caller leaves the loop early (`break`); rows may stay buffered
+            return out
         r = e2e.ncall(lambda: next(itr))
         if r[0] == "exc":
             out.ending = "stop" if r[1] == "StopIteration" else r
@@ -121,7 +124,7 @@ def run_sync(peer, kind, base, maxrep, replies, env=None, use_fetch=False, allow
     return out
 
 
-def run_async(peer, kind, base, maxrep, replies, use_fetch=False, allow_bulk=True):
+def run_async(peer, kind, base, maxrep, replies, use_fetch=False, allow_bulk=True, abandon_after=None, pre=None):
     """the async client against an agent living on the same event loop"""
     out = Outcome()
     state = {"step": 0}
@@ -133,6 +136,10 @@ def run_async(peer, kind, base, maxrep, replies, use_fetch=False, allow_bulk=Tru
             req = {"undecodable": str(ex)}
             out.requests.append(req)
             return []
+        if state.get("pre"):
+            # the abandoned walk: a full page of rows below its own base
+            names = [tuple(req["varbinds"][0][0]) + (i,) for i in range(1, 7)]
+            return [peer.response(req, [ber.varbind(n, ber.INT(9000 + i)) for i, n in enumerate(names)])]
         out.requests.append(req)
         rep = replies[state["step"]] if state["step"] < len(replies) else None
         state["step"] += 1
@@ -156,6 +163,16 @@ def run_async(peer, kind, base, maxrep, replies, use_fetch=False, allow_bulk=Tru
         else:
             ver = SnmpVersion.v1 if peer.kind == "v1" else SnmpVersion.v2c
             sess = SnmpSession("127.0.0.1", port=port, community=peer.community, version=ver, **kw)
+        if pre is not None:
+            # an earlier walk on the same session that the caller abandons after a few rows
+            pbase, pmaxrep, pn = pre
+            state["pre"] = True
+            k = 0
+            async for _ in sess.getbulk(pbase, pmaxrep):
+                k += 1
+                if k >= pn:
+                    break
+            state["pre"] = False
         if use_fetch:
             itr = sess.fetch(base)
         elif kind == "next":
@@ -164,6 +181,8 @@ def run_async(peer, kind, base, maxrep, replies, use_fetch=False, allow_bulk=Tru
             itr = sess.getbulk(base, maxrep)
         async for item in itr:
             out.yields.append(item)
+            if abandon_after is not None and len(out.yields) >= abandon_after:
+                return "abandoned"
             if len(out.yields) > CAP:
                 return "cap"
         return "stop"
